@@ -87,7 +87,7 @@ Proof.
   replace ((b - last s) * p c) with ((a - last s) * p c + (b - a) * p c) by ring. lia.
 Qed.
 
-(* the accounting invariant: admitted requests inside [t0,t1] are paid for by what is in the
+(* the accounting invariant: allowed requests inside [t0,t1] are paid for by what is in the
    bucket when the window opens plus the refill during the window *)
 Lemma calls_bound c t0 t1 : wf c -> forall ts s,
   ok_state c s -> nondecr_from (last s) ts -> last s <= t1 -> t0 <= t1 ->
@@ -100,7 +100,7 @@ Proof.
   - simpl in Hnd. destruct Hnd as [Ht Hr]. cbn [calls].
     pose proof (allow_ok_state c s t W Hs Ht) as Hs'.
     destruct (allow_cases c s t Ht) as [[E [E2 E3]]|E]; rewrite E in *; simpl in Hs'.
-    + (* admitted *)
+    + (* allowed *)
       set (s' := {| last := t; T := level c s t - C c |}) in *.
       destruct (Z_lt_le_dec t1 t) as [Hgt|Hle].
       * (* after the window: not counted, nothing later is *)
